@@ -144,8 +144,11 @@ func IndexFromFile(ctx context.Context,
 			break
 		}
 		// Stop if this worker reached the end of the stream (it's not necessarily
-		// the last worker!)
-		if w.eof {
+		// the last worker!). A worker that ran to the end without ever lining up
+		// with its successors can have been skipped by its predecessor (its bucket
+		// is empty then). In that case the chunks up to the end of the stream are
+		// in the buckets of the following workers, so keep going.
+		if w.eof && uint64(index.Length()) == size {
 			break
 		}
 	}
